@@ -204,7 +204,7 @@ def cli(x, p):
         x.tag('not fully parsed')
         x.check('luafmt fails with an error on code it could not parse to '
                 'the end', Or(exc is not None, rc != 0))
-        x.check('and writes nothing', len(fs.opened_for_write) == 0)
+        x.check('and writes nothing', clikit.changed(fs) == [])
         x.check('the input file keeps its bytes',
                 fs.files.get('/w/in.p8') == src)
         return
@@ -214,7 +214,7 @@ def cli(x, p):
     if exc is not None or rc != 0:
         return
     x.check('luafmt writes exactly the expected output file',
-            fs.opened_for_write == [out_name])
+            clikit.only_changed(fs, out_name))
     if out_name not in fs.files:
         return
     if not overwrite:
